@@ -611,6 +611,10 @@ def _exchange_kind(g, before, after, seed, n_models):
     (o1, c1), (o2, c2) = before, after
     k2 = {C.enc(var) for var, _ in c2}
     gone = [[var, val] for var, val in c1 if C.enc(var) not in k2]
+    if len(gone) == 1 and len(o2) < len(o1):
+        # the dict comprehension that re-subscripts the outcomes produced a key that was already there (Y -> Y_z next to an outcome
+        # Y_z): two outcome conjuncts collapsed into one, the value of one of them is lost
+        return "exchange:outcomes-collapse"
     if len(gone) != 1 or len(o1) != len(o2):
         return "exchange:separation"
     name = int(gone[0][0][1])
@@ -1022,6 +1026,7 @@ def _same_wrong_answer_as_model(case, r):
 
 
 COARSE = ("F11", "normalisation:subscript", "inherited", "reassociation", "exchange:polarity", "exchange:conditions", "exchange:separation",
+          "exchange:outcomes-collapse",
           "conditional:shared-base", "conditional:condition-in-outcome-world")
 
 
